@@ -78,6 +78,8 @@ def run_one(args):
             return ('harness', 'no socket in %s' % state)
         # deliver in two segments to exercise the buffer
         cut = len(stream) // 2
+        if tail_eof == 'gone':
+            r.sock.fail_send = True         # the peer is gone already: whatever the provider writes now fails
         for seg in (stream[:cut], stream[cut:]):
             if seg and not r.sock.closed:
                 r.feed(seg)
@@ -92,7 +94,7 @@ def run_one(args):
         s = r.summary()
         return (None, {'crash': s['crash'], 'blocked': s['blocked'], 'state': s['state'], 'closed': s['closed'],
                        'sock_none': s['sock_none'], 'sent': s['sent'][base_sent:], 'inds': s['inds'][base_inds:],
-                       'assoc': told['assoc'], 'ended': told.get('ended', False), 'mid_state': mid_state})
+                       'assoc': told['assoc'], 'ended': told.get('ended', False), 'mid_state': mid_state, 'tail': tail_eof})
     except Exception as e:  # pylint: disable=broad-except
         return ('harness', common.describe_exc(e))
 
@@ -113,7 +115,7 @@ def judge(state, stream, res, first_pdu_info):
         if not any(x.startswith('pdu:5') for x in res['inds']):
             return 'the user was told of the association but never that it is gone (indications %r)' % (kinds,)
     framed, undecodable = first_pdu_info
-    if framed and undecodable:
+    if framed and undecodable and res.get('tail') != 'gone':          # (a peer that is gone cannot be sent an A-ABORT)
         if not any(x[:2] == '07' for x in res['sent']):
             return 'an unrecognised / undecodable PDU (%s...) was not answered with an A-ABORT (sent: %r)' % (
                 stream[:12].hex(), [x[:20] for x in res['sent']])
@@ -123,7 +125,7 @@ def judge(state, stream, res, first_pdu_info):
 
 
 def replay(case):
-    err, res = run_one((case['state'], bytes.fromhex(case['stream']), True))
+    err, res = run_one((case['state'], bytes.fromhex(case['stream']), case.get('tail_eof', True)))
     if err:
         return 'harness: %s' % res
     lines = common.driver(['frames ' + case['stream'], 'dec-pdu ' + case['stream'][:2 * 70000]])
@@ -176,6 +178,10 @@ def run(chk):
     raw = bytearray(scen.rq_pdu().encode()); raw[30] = 0xE9; streams.append(bytes(raw))
     raw = bytearray(scen.rq_pdu().encode()); raw[80] = 0xFF; streams.append(bytes(raw))
     jobs = [(st, s_, True) for st in STATES for s_ in streams]
+    # the same streams with the peer going silent instead of closing (judged where ARTIM bounds the wait: Sta2, Sta13)
+    # ... and with the peer gone by the time the provider answers: every write fails, then the close is seen
+    jobs += [(st, s_, 'gone') for st in STATES for k, s_ in enumerate(streams) if k % (4 if tier == 'quick' else 2) == 1]
+    jobs += [(st, s_, False) for st in STATES for k, s_ in enumerate(streams) if k % (4 if tier == 'quick' else 2) == 0]
     # what the Lean model makes of the first PDU of each stream
     fr = common.driver(['frames ' + s_.hex() for s_ in streams])
     firsts = [l.split(' | ')[0].split(',')[0] for l in fr]
@@ -184,18 +190,21 @@ def run(chk):
     with multiprocessing.Pool(min(16, os.cpu_count() or 1)) as pool:
         results = pool.map(run_one, jobs, chunksize=32)
     sent_all = {}
-    for (state, stream, _), (err, res) in zip(jobs, results):
+    for (state, stream, tail_eof), (err, res) in zip(jobs, results):
         if err:
             common.raise_for('%s [state %s, stream %s]' % (res, state, stream[:20].hex()))
         framed, undec = info[stream]
-        chk.case(state + stream.hex()[:400], not (framed and not undec),
+        if not tail_eof and res['mid_state'] not in (2, 13) and not res['crash'] and not res['blocked']:
+            chk.count('silent-tail:not-bounded-by-ARTIM')
+            continue                      # a silent peer on a live association is not an ending (outside the property)
+        chk.case(state + ('gone:' if tail_eof == 'gone' else '' if tail_eof else 'silent:') + stream.hex()[:400], not (framed and not undec),
                  {'state': state, 'stream': stream[:24].hex() + ('..' if len(stream) > 24 else ''), 'first_pdu': 'undecodable' if undec else ('framed' if framed else 'incomplete')}
                  if len(chk.samples) < 8 and undec else None)
-        chk.count('state:' + state); chk.count('first-pdu:' + ('undecodable' if undec else 'decodable' if framed else 'not-framed'))
+        chk.count('state:' + state); chk.count('tail:' + ('gone' if tail_eof == 'gone' else 'close' if tail_eof else 'silence')); chk.count('first-pdu:' + ('undecodable' if undec else 'decodable' if framed else 'not-framed'))
         v = judge(state, stream, res, (framed, undec))
         if v:
             chk.violation('C12:%s:%s' % (state, v[:24]), '%s, stream %s%s: %s' % (state, stream[:30].hex(), '..' if len(stream) > 30 else '', v),
-                          {'state': state, 'stream': stream.hex()})
+                          {'state': state, 'stream': stream.hex(), 'tail_eof': tail_eof})
         for x in res['sent']:
             sent_all.setdefault(x, (state, stream))
     keys = sorted(sent_all)
